@@ -370,7 +370,7 @@ ASSUME = ['segments with back-references, look-around, inline flags or unbalance
 
 def main(argv):
     return run_check('C03', [CompileStream(), FitsStream(), CheckerHistoryStream()], argv, trusted_base=TRUSTED, assumptions=ASSUME,
-                     translated=('checker',))
+                     translated=('checker', 'parser'))
 
 
 if __name__ == '__main__':
